@@ -11,6 +11,11 @@
 # text, i.e. the comparison covers everything the client is shown. The generators therefore produce texts whose diagnostics
 # differ in the message only (g1 / g2 at the same spot; a call of gf whose definition, in another file, changes its
 # parameter count; a require of another missing module), and histories that switch between them.
+# Leg c08.indir: the same kinds of histories in the configurations DirManager.IsInDir depends on: the client sends no
+# PluginPath option (mode letter n), the workspace has a second folder (mode letter f; then p q are workspace files).
+# Leg c08.anntype: annotation types (check 18): a file declares a class (`---@class T1`) another one uses (`---@type T1`) or
+# declares again; the declaring file goes away in a notification naming deletions only (watched Delete; didClose of a
+# document outside the workspace): the project-wide type table must be rebuilt (seeded change C08-5).
 import vlib
 from vlib import Leg
 
@@ -18,13 +23,17 @@ INSIDE = "abcd"
 OUTSIDE = "pq"
 
 
-def rand_content(rng, rich=True):
+def rand_content(rng, rich=True, ann=0.14):
     r = rng.random()
     if r < 0.06:
         return "e"
     n = rng.choice([1, 1, 2, 2, 3, 4])
     out = []
     for _ in range(n):
+        if rng.random() < ann:
+            # annotation types (check 18): a declaration or a use of the class T1 / T2
+            out.append(rng.choice("kkt") + rng.choice("112"))
+            continue
         k = rng.random()
         if k < 0.18:
             out.append("l")
@@ -50,7 +59,7 @@ def stmts(code):
         return []
     out, i = [], 0
     while i < len(code):
-        if code[i] in "lcsg":
+        if code[i] in "lcsg":        # the other forms have an argument: d u r f k t
             out.append(code[i]); i += 1
         else:
             out.append(code[i:i + 2]); i += 2
@@ -61,12 +70,14 @@ def unstmts(l):
     return "".join(l) if l else "e"
 
 
-def edit_content(rng, code):
+def edit_content(rng, code, ann=0.14):
     """a small edit of an existing text: what typing does (break it, fix it, add or drop a line)"""
     l = stmts(code)
     r = rng.random()
     swap = {"d1": "d2", "d2": "d1", "u1": "u2", "u2": "u1", "l": "c", "f1": "f2", "f2": "f1",
-            "ra": "rb", "rb": "rc", "rc": "rd", "rd": "ra"}
+            "ra": "rb", "rb": "rc", "rc": "rd", "rd": "ra", "t1": "t2", "t2": "t1", "k1": "k2", "k2": "k1"}
+    if ann == 0:
+        swap = {a: b for a, b in swap.items() if a[0] not in "kt"}
     if r < 0.2 and any(x in swap for x in l):
         # same-length change (the unchanged-content shortcut must still see it); for u / f / r the diagnostics it causes -
         # in this file or in the callers of gf - keep type and position and change their message text only
@@ -79,11 +90,11 @@ def edit_content(rng, code):
     elif r < 0.55 and "s" in l:
         l.remove("s")
     elif r < 0.75:
-        l.insert(rng.randrange(len(l) + 1), (stmts(rand_content(rng)) or ["c"])[0])
+        l.insert(rng.randrange(len(l) + 1), (stmts(rand_content(rng, ann=ann)) or ["c"])[0])
     elif r < 0.9 and l:
         del l[rng.randrange(len(l))]
     else:
-        return rand_content(rng)
+        return rand_content(rng, ann=ann)
     return unstmts(l[:5])
 
 
@@ -95,14 +106,20 @@ class Ed:
         self.dirty = set()
 
 
-def gen_history(rng, n_events, p_outside=0.08, p_raw=0.0, calm=False, batches=False):
+def gen_history(rng, n_events, p_outside=0.08, p_raw=0.0, calm=False, batches=False, ann=0.14, INSIDE=INSIDE, OUTSIDE=OUTSIDE):
+    """ann = share of annotation statements (check 18). The model keeps the project-wide annotation type table inside the
+    cross-file analysis `cross`, i.e. over the files of the PROJECT, recomputed when the third pass is; the real server
+    builds it over every file it has analysed (fileStructMap) whenever a re-analysis happened. The two agree as long as every
+    analysed file is a member of the project - all conformant histories - and differ after a Changed event / didSave for a
+    file the server does not know (raw events; saving a buffer whose file was deleted): histories that can contain those
+    are generated with ann = 0 (the exploratory leg c08.annraw records what happens there)."""
     files = INSIDE
     disk = {}
     for f in files:
         if rng.random() < 0.6:
-            disk[f] = rand_content(rng) if not calm else rand_content(rng).replace("e", "c")
-    if rng.random() < p_outside * 3:
-        disk[rng.choice(OUTSIDE)] = rand_content(rng)
+            disk[f] = rand_content(rng, ann=ann) if not calm else rand_content(rng, ann=ann).replace("e", "c")
+    if OUTSIDE and rng.random() < p_outside * 3:
+        disk[rng.choice(OUTSIDE)] = rand_content(rng, ann=ann)
     ed = Ed(disk)
     evs = []
     for _ in range(n_events):
@@ -110,7 +127,7 @@ def gen_history(rng, n_events, p_outside=0.08, p_raw=0.0, calm=False, batches=Fa
         f = rng.choice(pool)
         if rng.random() < p_raw:
             k = rng.choice("OHSXWWkK")
-            c = rand_content(rng)
+            c = rand_content(rng, ann=ann)
             if k in "OHSk":
                 evs.append("%s%s=%s" % (k, f, c))
                 if k == "k":
@@ -132,14 +149,14 @@ def gen_history(rng, n_events, p_outside=0.08, p_raw=0.0, calm=False, batches=Fa
             evs.append("o" + g)
         elif r < 0.46 and opened:
             g = rng.choice(opened)
-            c = edit_content(rng, ed.buf[g])
+            c = edit_content(rng, ed.buf[g], ann)
             if calm and c == "e":
                 c = "c"
             ed.buf[g] = c; ed.dirty.add(g)
             evs.append("c%s=%s" % (g, c))
         elif r < 0.64 and opened:
             g = rng.choice(sorted(ed.dirty) or opened) if rng.random() < 0.8 else rng.choice(opened)
-            if g not in ed.disk and rng.random() < 0.9:
+            if g not in ed.disk and (ann > 0 or rng.random() < 0.9):
                 continue                      # saving a deleted file: the watcher would also report a creation
             ed.disk[g] = ed.buf[g]; ed.dirty.discard(g)
             evs.append("s" + g)
@@ -159,12 +176,12 @@ def gen_history(rng, n_events, p_outside=0.08, p_raw=0.0, calm=False, batches=Fa
                     if rng.random() < 0.45:
                         items.append("D" + g); del ed.disk[g]
                     else:
-                        c = edit_content(rng, ed.disk[g]) if rng.random() < 0.7 else ed.disk[g]
+                        c = edit_content(rng, ed.disk[g], ann) if rng.random() < 0.7 else ed.disk[g]
                         if calm and c == "e":
                             c = "c"
                         items.append("M%s=%s" % (g, c)); ed.disk[g] = c
                 else:
-                    c = rand_content(rng)
+                    c = rand_content(rng, ann=ann)
                     if calm and c == "e":
                         c = "c"
                     items.append("C%s=%s" % (g, c)); ed.disk[g] = c
@@ -217,6 +234,14 @@ SEEDS = [
     "A a=cg,b=lf1,c=cf2 wDb;wCb=f2;oc;cc=f1;sc;xc",
     "A a=u1d1,b=g oa;ca=u1;sa;ca=u2;sa;wCc=f2;wMc=f1",
     "A a=gf1,b=f2,p=cf1 op;cp=f2;sp;xp;wMb=cf1",
+    # annotation types (check 18): the project-wide type table after a notification that names deletions only (seeded change C08-5)
+    "A a=k1,b=t1 wDa",
+    "A a=k1,b=k1t1t2 wDa",
+    "A a=k1k2,b=k2k1,c=t1t2l wDa;wDb",
+    "A a=ck1,b=t1,c=lk1 wDa+Dc",
+    "A a=t1,p=k1 op;xp",
+    "A a=t1l,b=k1 wDb;wCb=k1;ob;cb=k2;sb;xb",
+    "A a=t1t2,b=k1,p=k2k1 op;wDb;xp",
 ]
 
 
@@ -287,11 +312,81 @@ def gen_tagonly(rng, tier):
             elif r < 0.6 and t in ed.disk:
                 tail.append("wD" + t); del ed.disk[t]
             else:
-                tail += ["o" + t, "c%s=%s" % (t, edit_content(rng, ed.disk.get(t, "c"))), "s" + t, "x" + t]
+                # t may have been deleted while its document is still open: the save is then non-conformant (no annotation
+                # statements there, see gen_history)
+                tail += ["o" + t, "c%s=%s" % (t, edit_content(rng, ed.disk.get(t, "c"), 0 if t not in ed.disk else 0.14)),
+                         "s" + t, "x" + t]
         init = ",".join("%s=%s" % (a, c) for a, c in sorted(disk.items()))
         out.append(case_of("A", init, evs + (tail if rng.random() < 0.6 else [])))
     return out
 
+def gen_anntype(rng, tier):
+    """annotation types (check 18): one file declares the class a second one uses (and perhaps a third declares again:
+    duplicate warning); the declaring file goes away in a notification that names DELETIONS ONLY (watched Delete alone or
+    with other deletions; didClose of a document outside the workspace), or loses / gets the declaration by a change"""
+    n = {"quick": 450, "thorough": 7000, "search": 300}[tier]
+    out = []
+    for k in range(n):
+        files = list(INSIDE)
+        rng.shuffle(files)
+        f, g, h = files[0], files[1], files[2]
+        j = rng.choice("12")
+        pad = lambda: "".join(rng.choice(["", "", "c", "l", "t" + rng.choice("12")]) for _ in range(2))
+        disk, evs = {}, []
+        decl = pad() + "k" + j + (pad() if rng.random() < 0.3 else "")
+        disk[g] = pad() + "t" + j + (pad() if rng.random() < 0.5 else "")
+        if rng.random() < 0.45:
+            disk[h] = rng.choice(["", "c"]) + "k" + j + rng.choice(["", "", "t" + j, "k" + ("1" if j == "2" else "2")])
+        if rng.random() < 0.2:
+            disk[g] += "k" + j
+        how = rng.random()
+        if how < 0.22:
+            # the declaring document lies outside the workspace: it takes part exactly while it is open
+            p = rng.choice(OUTSIDE)
+            disk[p] = decl
+            evs += ["o" + p] + (["w" + "M%s=%s" % (g, disk[g] + "c")] if rng.random() < 0.3 else []) + ["x" + p]
+        else:
+            disk[f] = decl
+            if how < 0.5:
+                evs.append("wD" + f)
+            elif how < 0.64:
+                others = [x for x in (g, h) if x in disk and rng.random() < 0.6]
+                items = ["D" + x for x in [f] + others]
+                rng.shuffle(items)
+                evs.append("w" + "+".join(items))
+            elif how < 0.74:
+                evs += ["wD" + f, "wC%s=%s" % (f, rng.choice([decl, "c", "t" + j]))]
+            elif how < 0.84:
+                evs.append("wM%s=%s" % (f, decl.replace("k" + j, rng.choice(["c", "", "k" + ("1" if j == "2" else "2")])) or "e"))
+            elif how < 0.92:
+                evs += ["o" + f, "c%s=%s" % (f, decl.replace("k" + j, "c")), "s" + f] + (["x" + f] if rng.random() < 0.5 else [])
+            else:
+                # the declaration arrives later
+                del disk[f]
+                evs += ["wC%s=%s" % (f, decl), "wD" + f]
+        ed = Ed(disk)
+        for e in evs:                       # mirror of the disk for the tail
+            if e.startswith("w"):
+                for it in e[1:].split("+"):
+                    if it[0] == "D":
+                        ed.disk.pop(it[1], None)
+                    else:
+                        ed.disk[it[1]] = it.split("=")[1]
+        tail = []
+        for _ in range(rng.choice([0, 0, 1, 2])):
+            t = rng.choice(INSIDE)
+            r = rng.random()
+            if r < 0.45 and t in ed.disk:
+                tail.append("wD" + t); del ed.disk[t]
+            elif r < 0.8:
+                c = edit_content(rng, ed.disk[t]) if t in ed.disk else rand_content(rng, ann=0.4)
+                tail.append(("wM" if t in ed.disk else "wC") + "%s=%s" % (t, c)); ed.disk[t] = c
+            elif t in ed.disk:
+                c = edit_content(rng, ed.disk[t])
+                tail += ["o" + t, "c%s=%s" % (t, c), "s" + t, "x" + t]; ed.disk[t] = c
+        init = ",".join("%s=%s" % (a, c) for a, c in sorted(disk.items()))
+        out.append(case_of("A", init, evs + tail))
+    return out
 
 
 def gen_conformant(rng, tier):
@@ -300,7 +395,8 @@ def gen_conformant(rng, tier):
     for k in range(n):
         m = rng.random()
         calm = m < 0.35                      # stays mostly inside the guard of C08_incremental_eq_fresh
-        init, evs = gen_history(rng, rng.choice([3, 5, 8, 10, 12, 15]), p_outside=0.0 if calm or m < 0.7 else 0.3, calm=calm)
+        init, evs = gen_history(rng, rng.choice([3, 5, 8, 10, 12, 15]), p_outside=0.0 if calm or m < 0.7 else 0.3, calm=calm,
+                                ann=0.0 if rng.random() < 0.2 else 0.14)
         out.append(case_of("A" if rng.random() < 0.85 else "E", init, evs))
     return out
 
@@ -310,7 +406,8 @@ def gen_batch(rng, tier):
     n = {"quick": 500, "thorough": 8000, "search": 200}[tier]
     out = ["A a=rbrcl wCb=c+Cc=c;wDb+Dc", "A a=u1u2 wCb=d1+Cc=d2;wMb=c+Dc"]
     for k in range(n):
-        init, evs = gen_history(rng, rng.choice([3, 6, 10]), p_outside=0.0, calm=rng.random() < 0.4, batches=True)
+        init, evs = gen_history(rng, rng.choice([3, 6, 10]), p_outside=0.0, calm=rng.random() < 0.4, batches=True,
+                                ann=0.0 if rng.random() < 0.2 else 0.14)
         out.append(case_of("A", init, evs))
     return out
 
@@ -320,7 +417,38 @@ def gen_raw(rng, tier):
     n = {"quick": 700, "thorough": 12000, "search": 400}[tier]
     out = []
     for k in range(n):
-        init, evs = gen_history(rng, rng.choice([3, 6, 10, 15]), p_outside=0.12, p_raw=rng.choice([0.15, 0.3, 0.6]))
+        init, evs = gen_history(rng, rng.choice([3, 6, 10, 15]), p_outside=0.12, p_raw=rng.choice([0.15, 0.3, 0.6]), ann=0.0)
+        out.append(case_of("E", init, evs))
+    return out
+
+
+def gen_indir(rng, tier):
+    """the configurations DirManager.IsInDir depends on. Mode letters: n = the client sends no PluginPath option (histories
+    with documents outside the workspace: they must leave the project when closed), f = the directory of p q is a second
+    workspace folder (p q are project files like a b c d: closing one must not remove it from the project)"""
+    n = {"quick": 500, "thorough": 8000, "search": 300}[tier]
+    out = ["An a=u1,p=d1s op;xp", "Af a=u1,p=d1s op;xp", "Afn a=u1,p=d1s op;xp", "Af a=rp,p=c op;xp", "An a=t1,p=k1 op;xp",
+           "An a=rp,p=su1 op;cp=u1;sp;oa;xp;xa", "Af a=g,p=f2,q=cf1 op;oq;xq;wDq;xp", "Af a=t1,p=k1,q=k1 oq;xq;op;cp=c;sp;xp"]
+    for k in range(n):
+        r = rng.random()
+        if r < 0.5:
+            cfg = "n"
+            init, evs = gen_history(rng, rng.choice([3, 5, 8, 12]), p_outside=rng.choice([0.3, 0.5]), calm=rng.random() < 0.3)
+        else:
+            cfg = "f" if r < 0.85 else "fn"
+            init, evs = gen_history(rng, rng.choice([3, 5, 8, 12]), p_outside=0.0, calm=rng.random() < 0.3,
+                                    batches=rng.random() < 0.3, INSIDE=rng.choice(["abpq", "abcdpq", "apq"]), OUTSIDE="")
+        out.append(case_of("A" + cfg, init, evs))
+    return out
+
+
+def gen_annraw(rng, tier):
+    """EXPLORATORY (not deciding): raw notifications and silent disk changes with annotation statements. Outside the
+    region where the model's `cross` carries the annotation type table faithfully (see gen_history)."""
+    n = {"quick": 150, "thorough": 1500, "search": 100}[tier]
+    out = ["E a=t1 kb=k1;WMb", "A b=t1l ob;wDb;sb"]
+    for k in range(n):
+        init, evs = gen_history(rng, rng.choice([3, 6, 10]), p_outside=0.12, p_raw=rng.choice([0.15, 0.3]), ann=0.3)
         out.append(case_of("E", init, evs))
     return out
 
@@ -356,16 +484,24 @@ LEGS = [
     Leg("c08.raw", gen_raw, shrink=shrink, nontrivial=nontrivial, per_case_s=5.0),
     Leg("c08.batch", gen_batch, shrink=shrink, nontrivial=nontrivial, per_case_s=5.0),
     Leg("c08.tagonly", gen_tagonly, shrink=shrink, nontrivial=lambda c: True, per_case_s=5.0),
+    Leg("c08.anntype", gen_anntype, shrink=shrink, nontrivial=lambda c: True, per_case_s=5.0),
+    Leg("c08.indir", gen_indir, shrink=shrink, nontrivial=nontrivial, per_case_s=5.0),
+    Leg("c08.annraw", gen_annraw, nontrivial=nontrivial, per_case_s=5.0, deciding=False),
 ]
 
 TRUSTED = vlib.TRUSTED_COMMON + [
     "oracles (fields of the record `analysis`; theorems hold for every instance): per-file analyses syn / first / cross; "
-    "the correspondence instantiates them with the toy analysis of Proofs/EventsToy.v over eight statement forms and checks 1,2,3,4,6,10; "
+    "the correspondence instantiates them with the toy analysis of Proofs/EventsToy.v over ten statement forms and checks 1,2,3,4,6,10,18 "
+    "(18 = annotation types: `---@class T<j>` declares, `---@type T<j>` uses; the project-wide type table createTypeMap is part of "
+    "the cross-file analysis `cross`: faithful while every analysed file is a project member - all conformant histories; histories with "
+    "raw events / a save of a deleted file are generated without annotation statements, the exploratory leg c08.annraw records that region; "
+    "the mutual order of the duplicate-type warnings of one file follows a Go map: the harness sorts that run by line); "
     "a diagnostic is compared as type, start line and a hash of (start column, end line, end column, message text): the model's tag "
     "rendered by ocaml/c08_run.ml against what the real server published",
     "modelled, tied by correspondence: diagnostics_manager.go, the five handlers of textdocument_file_request.go, "
     "HandleFileEventChanges, the unchanged-content shortcut, RemoveFile / FileIndexInfo.RemoveOneFile, ReanalyseReferInfo trigger, "
-    "GetAllFileErrorInfo; flat module names only (sub-directory matching is C18's subject); LRU capacity not modelled",
+    "GetAllFileErrorInfo; DirManager.IsInDir = the field in_dir of the instance (single root with or without the PluginPath option: "
+    "files a-d inside, p q outside; two workspace folders: all six inside - leg c08.indir); flat module names only (sub-directory matching is C18's subject); LRU capacity not modelled",
 ]
 
 
